@@ -1,11 +1,9 @@
 SPECIFICATION Spec
 CONSTANTS
-  Names = {1, 2}
-  MaxEnv = 5
-  MaxInc = 2
-  MaxRaise = 0
+  Holders = {1, 2, 3}
+  Keys = {1, 2}
+  MaxLen = 10
+  MaxSinks = 5
 INVARIANT NoViolation
 INVARIANT Structural
-INVARIANT Bounded
-VIEW View
 CHECK_DEADLOCK FALSE
